@@ -1,7 +1,11 @@
 //! Correspondence harness: runs the real tarpc code on generated or replayed operation
 //! scripts and prints `script` / `op` / `obs` lines (see DESIGN.md, appendix A).
+mod c07;
 mod c13;
+mod c19;
+mod c20;
 mod cli;
+mod srv;
 mod rng;
 mod simt;
 
@@ -92,6 +96,52 @@ fn main() {
                     let mut rng = rng::Rng::new(0);
                     cli::run_script(&mut out, i as u64, &p, &mut rng, Some(&ops), 0);
                 }
+            }
+        }
+        "srv" => {
+            std::panic::set_hook(Box::new(|_| {}));
+            if replay.is_empty() {
+                let wo: u64 = arg(&args, "wo", 0);
+                let faults: u64 = arg(&args, "faults", 0);
+                srv::generate(&mut out, seed, scripts, len, wo == 1, faults == 1);
+            } else {
+                for (i, (h, ops)) in read_scripts(&replay).iter().enumerate() {
+                    let p = srv::Params::from_header(h);
+                    let ops: Vec<srv::Op> = ops
+                        .iter()
+                        .filter_map(|o| srv::Op::parse(&o.split_whitespace().collect::<Vec<_>>()))
+                        .collect();
+                    let mut rng = rng::Rng::new(0);
+                    srv::run_script(&mut out, i as u64, &p, &mut rng, Some(&ops), 0);
+                }
+            }
+        }
+        "c07" => {
+            if replay.is_empty() {
+                c07::generate(&mut out, seed, scripts, len);
+            } else {
+                c07::replay(&mut out, &read_scripts(&replay));
+            }
+        }
+        "c19" => {
+            if replay.is_empty() {
+                c19::generate(&mut out, seed, scripts, len);
+            } else {
+                for (i, (_h, ops)) in read_scripts(&replay).iter().enumerate() {
+                    let ops: Vec<c19::Op> = ops
+                        .iter()
+                        .filter_map(|o| c19::Op::parse(&o.split_whitespace().collect::<Vec<_>>()))
+                        .collect();
+                    let mut rng = rng::Rng::new(0);
+                    c19::run_script(&mut out, i as u64, &mut rng, Some(&ops), 0);
+                }
+            }
+        }
+        "c20rr" | "c20hash" | "c20retry" => {
+            if replay.is_empty() {
+                c20::generate(&mut out, &family, seed, scripts, len);
+            } else {
+                c20::replay(&mut out, &family, &read_scripts(&replay));
             }
         }
         other => {
